@@ -77,7 +77,7 @@ func init() {
 	Register(&Check{
 		ID:    "C13",
 		Level: "exploration",
-		Rule: "full truth table: getter {absent, G} x type form (10: absent, value, pointer, quoted, local value, local bare pointer, interface, unquoted path) x must_getter {unset,true,false} x default_must_getter {unset,true,false} x meta names set/unset (2^3) x creation {constructor, type-only} (both tiers); collision rows (equal getters on two services; getter = every exported method and field of the embedded container, plus Must/InContext combinations); " +
+		Rule: "full truth table: getter {absent, G} x type form (10: absent, value, pointer, quoted, local value, local bare pointer, interface, unquoted path) x must_getter {unset,true,false} x default_must_getter {unset,true,false} x meta names set/unset (2^3) x creation {constructor, type-only} (both tiers); three services at once, each in one of six getter / must_getter states, x the three defaults (648 configurations); collision rows (equal getters on two services; getter = every exported method and field of the embedded container, plus Must/InContext combinations); " +
 			"a typed subset executed in the probe (getter, InContext twin, Must twins incl. panics on todo services). non-trivial = accepted configuration whose method set was compared; distinct = distinct configuration",
 		Assumptions: []string{"the exported method set of *container.Container is read with go/types from the pinned runtime's export data", "unexported underscore helper methods of the non-stub output are not part of the API and are ignored"},
 		BudgetQuick: 240 * time.Second, BudgetThorough: 900 * time.Second,
@@ -211,6 +211,77 @@ func init() {
 								}
 							}
 						}
+					}
+				}
+			}
+			// several services at once: what one service says about its must-getter says nothing about its neighbours.
+			// Three services (in name order), each in one of six states, x default_must_getter {unset, true, false}
+			{
+				type st struct {
+					getter bool
+					must   int // 0 unset, 1 true, 2 false
+				}
+				states := []st{{false, 0}, {false, 2}, {false, 1}, {true, 0}, {true, 1}, {true, 2}}
+				names3 := []string{"alpha", "beta", "gamma"}
+				for v := 0; v < 6*6*6; v++ {
+					for dm := 0; dm < 3; dm++ {
+						v, dm := v, dm
+						idx := []int{v % 6, (v / 6) % 6, v / 36}
+						id := fmt.Sprintf("several/%d%d%d/default=%d", idx[0], idx[1], idx[2], dm)
+						w.Case(id, func(c *C) {
+							getBase()
+							cfg := &Cfg{Meta: stdMeta()}
+							cfg.Meta.DefaultMustGetter = tri(dm)
+							want := c13expectMethods(base, "", "", false)
+							wantReject := false
+							for i, n := range names3 {
+								x := states[idx[i]]
+								sv := Service{Name: n, Constructor: P("pk.New"), MustGetter: tri(x.must)}
+								if x.getter {
+									g := "Fetch" + strings.ToUpper(n[:1]) + n[1:]
+									sv.Getter = P(g)
+									for k, m := range c13expectMethods(nil, g, "interface{}", x.must == 1 || x.must == 0 && dm == 1) {
+										want[k] = m
+									}
+								} else if x.must == 1 {
+									wantReject = true
+								}
+								cfg.Services = append(cfg.Services, sv)
+							}
+							files := []File{{"c.yaml", cfg.YAML()}}
+							fm := FilesMap(files)
+							br := w.Build(files)
+							c.Distinct("all", id)
+							c.Distinct("nontrivial", id)
+							if br.Panic != "" {
+								c.Violation("panic", "tool panicked:\n"+br.Panic, fm, nil)
+								return
+							}
+							if wantReject {
+								if br.Exit == 0 {
+									c.Violation("must-getter-without-getter-accepted", "explicit must_getter: true without a getter was accepted next to other services ("+id+")", fm, nil)
+								}
+								return
+							}
+							if br.Exit != 0 {
+								c.Violation("valid-rejected", "valid configuration rejected ("+id+"):\n"+br.Out, fm, nil)
+								return
+							}
+							gi := Analyze(w.TC(false), br.Output, nil)
+							if len(gi.Errs) > 0 {
+								c.Violation("typecheck:"+compilerKey(gi.Errs[0]), "generated file does not type-check ("+id+"):\n"+strings.Join(gi.Errs, "\n"), fm, nil)
+								return
+							}
+							got := map[string]string{}
+							for k, m := range gi.Methods {
+								if isExported(k) {
+									got[k] = m
+								}
+							}
+							if d := diffMaps(want, got); d != "" {
+								c.Violation("method-set-several-services", "method set differs ("+id+"; states are getter/must_getter of alpha, beta, gamma):\n"+d, fm, nil)
+							}
+						})
 					}
 				}
 			}
